@@ -6,6 +6,7 @@ import (
 	"errors"
 	"fmt"
 	"reflect"
+	"sort"
 
 	"github.com/dgraph-io/badger"
 	res "github.com/jirenius/go-res"
@@ -348,7 +349,16 @@ func (st *Store) OnChange(cb func(id string, before, after interface{})) {
 // (where <prefix> is the set prefix), to mark the store as initialized.
 func (st *Store) Init(cb func(add func(id string, v interface{})) error) error {
 	created := make(map[string]interface{})
-	return st.DB.Update(func(txn *badger.Txn) error {
+	// The initial resources are locked like the resource of a write
+	// transaction, until the OnChange listeners have been called: a mutation
+	// of one of them must not have its listeners called before those of Init.
+	var ids, locked []string
+	defer func() {
+		for _, id := range locked {
+			st.kl.Unlock(id)
+		}
+	}()
+	err := st.DB.Update(func(txn *badger.Txn) error {
 		var err error
 		initKey := []byte(`$` + st.prefix + `init`)
 		// Check init flag key
@@ -394,7 +404,17 @@ func (st *Store) Init(cb func(add func(id string, v interface{})) error) error {
 		}
 
 		// Write resources
-		for id, v := range entries {
+		ids = make([]string, 0, len(entries))
+		for id := range entries {
+			ids = append(ids, id)
+		}
+		sort.Strings(ids)
+		for _, id := range ids {
+			st.kl.Lock(id)
+			locked = append(locked, id)
+		}
+		for _, id := range ids {
+			v := entries[id]
 			rname := []byte(st.prefix + id)
 			// Skip values that already exists.
 			_, err := txn.Get(rname)
@@ -411,15 +431,22 @@ func (st *Store) Init(cb func(add func(id string, v interface{})) error) error {
 		}
 
 		simAt("init.afterSeed", "")
-		// Call OnChange callback
-		for id, v := range created {
-			st.callOnChange(id, nil, v)
-		}
-
 		simAt("init.beforeMarker", "")
 		// Set init flag key
 		return txn.Set(initKey, nil)
 	})
+	if err != nil {
+		return err
+	}
+	// Call OnChange callback, now that the resources are stored: a commit may
+	// fail (on a conflict with a concurrent write, on a disk error), and the
+	// listeners must not be told of resources that were never created.
+	for _, id := range ids {
+		if v, ok := created[id]; ok {
+			st.callOnChange(id, nil, v)
+		}
+	}
+	return nil
 }
 
 // getValue gets a value from the database and unmarshals it.
